@@ -32,6 +32,7 @@ type Directives struct {
 	Opt    bool   // opt: reply carries an OPT with options
 	NsTTL  int64  // nsttl<N>: TTL of the authority and additional records (-1 = same rule as the answers)
 	Pad    int    // pad<N>: one extra TXT answer with exactly N octets of text (N <= 255): response sizes in 1-byte steps
+	AA, AD bool   // aa / ad: the reply has the AA / AD flag set (an authoritative / validating upstream)
 	Fin    bool   // fin: stream transports close the connection right after the reply has been written
 	Deep   int    // deep<N>: a CNAME chain of nested names followed by N A records owned by a long label under the
 	// deepest name: compresses to ~16 bytes per record with full name compression, but to ~80 bytes per
@@ -64,6 +65,12 @@ func ParseDirectives(firstLabel string) Directives {
 			continue
 		case "fin":
 			d.Fin = true
+			continue
+		case "aa":
+			d.AA = true
+			continue
+		case "ad":
+			d.AD = true
 			continue
 		}
 		if n, ok := num("rc"); ok {
@@ -187,6 +194,7 @@ func BuildReply(name string, qtype, qclass uint16, tag string, serial uint32, d 
 	m.Response = true
 	m.RecursionAvailable = true
 	m.RecursionDesired = true
+	m.Authoritative, m.AuthenticatedData = d.AA, d.AD
 	m.Question = []dns.Question{{Name: name, Qtype: qtype, Qclass: qclass}}
 	class := qclass
 	if class == dns.ClassANY || class == dns.ClassNONE || class == 0 {
